@@ -187,6 +187,25 @@ where
     });
 
     let lookups = stark.lookups();
+    #[cfg(feature = "verif_hooks")]
+    let aux_trace_override: Option<Vec<PolynomialValues<F>>> =
+        crate::verif_hooks::with_knobs(|k| {
+            k.aux_trace.as_ref().map(|t| {
+                t.iter()
+                    .map(|c| {
+                        PolynomialValues::new(
+                            c.iter().map(|&x| F::from_canonical_u64(x)).collect(),
+                        )
+                    })
+                    .collect()
+            })
+        })
+        .flatten();
+    #[cfg(feature = "verif_hooks")]
+    let trace_poly_values: &[PolynomialValues<F>] = match aux_trace_override.as_ref() {
+        Some(t) => t,
+        None => trace_poly_values,
+    };
     let lookup_helper_columns = timed!(
         timing,
         "compute lookup helper columns",
